@@ -34,6 +34,39 @@ def chain_cases(stmts, var_hint=None):
     return out
 
 
+class _Canon(ast.NodeTransformer):
+    def __init__(self, mapping):
+        self.mapping = mapping
+
+    def visit_Name(self, n):
+        return ast.copy_location(ast.Name(id=self.mapping.get(n.id, n.id), ctx=n.ctx), n)
+
+
+def canon_loop(lp: ast.For):
+    """Alpha-normalised view of a field loop: loop targets become $f0, $f1, ...; the local derived from the field's
+    name (first top-level assignment of the body that reads $f0) becomes $name.  Returns (mapping, name-derivation text)."""
+    import copy
+    tg = lp.target.elts if isinstance(lp.target, (ast.Tuple, ast.List)) else [lp.target]
+    mapping = {}
+    for i, t in enumerate(tg):
+        t = t.value if isinstance(t, ast.Starred) else t
+        if isinstance(t, ast.Name):
+            mapping[t.id] = f"$f{i}"
+    deriv = None
+    first = next((t.id for t in tg if isinstance(t, ast.Name)), None)
+    for st in lp.body:
+        if isinstance(st, ast.Assign) and len(st.targets) == 1 and isinstance(st.targets[0], ast.Name) and first and any(isinstance(x, ast.Name) and x.id == first for x in ast.walk(st.value)):
+            deriv = norm(_Canon(mapping).visit(copy.deepcopy(st.value)))
+            mapping[st.targets[0].id] = "$name"
+            break
+    return mapping, deriv
+
+
+def canon_cases(stmts, mapping):
+    import copy
+    return [((norm(_Canon(mapping).visit(copy.deepcopy(ast.parse(t, mode="eval").body))) if t != "else" else t), b) for t, b in chain_cases(stmts)]
+
+
 def field_loop(f):
     for n in walk_local(f.node):
         if isinstance(n, ast.For) and norm(n.iter).endswith("._fields_"):
@@ -132,19 +165,20 @@ def run(prog: Program, chk: Check):
                  "a case present on one side only encodes a shape the other side cannot consume")
     enc, decf = prog.func(MB, "_to_dict"), prog.func(MB, "_from_dict")
     le, ld = field_loop(enc), field_loop(decf)
-    S.decide(norm(le.target) == norm(ld.target) and norm(le.iter) == norm(ld.iter), f"{MB}|field-walk", where(enc, le), "both walk obj._fields_ with the same target",
+    me, name_e = canon_loop(le)
+    md, name_d = canon_loop(ld)
+    shape = lambda lp: [("*" if isinstance(t, ast.Starred) else "n") for t in (lp.target.elts if isinstance(lp.target, (ast.Tuple, ast.List)) else [lp.target])]
+    S.decide(shape(le) == shape(ld) and norm(le.iter).endswith("._fields_") and norm(ld.iter).endswith("._fields_"), f"{MB}|field-walk", where(enc, le), "both walk obj._fields_ with the same target shape",
              "encoder and decoder do not iterate _fields_ the same way")
-    name_e = [norm(n.value) for n in le.body if isinstance(n, ast.Assign) and norm(n.targets[0]) == "name"]
-    name_d = [norm(n.value) for n in ld.body if isinstance(n, ast.Assign) and norm(n.targets[0]) == "name"]
-    S.decide(bool(name_e) and name_e == name_d, f"{MB}|field-name", where(enc, le), "both derive the public field name the same way", f"field name derivation differs: {name_e} vs {name_d}")
-    ce, cd_ = chain_cases(le.body), chain_cases(ld.body)
+    S.decide(name_e is not None and name_e == name_d, f"{MB}|field-name", where(enc, le), "both derive the public field name the same way", f"field name derivation differs: {name_e} vs {name_d}")
+    ce, cd_ = canon_cases(le.body, me), canon_cases(ld.body, md)
     te, td = [t for t, _ in ce], [t for t, _ in cd_]
     S.decide(te == td and len(te) >= 3, f"{MB}|outer-cases", where(enc, le), f"outer cases agree: {te}", f"outer case analysis differs: encoder {te} vs decoder {td}")
-    ALLOWED_ENCODER_ONLY = {"ftype._type_ is ctypes.c_byte", "ftype._type_ is ctypes.c_ubyte"}
+    ALLOWED_ENCODER_ONLY = {"$f1._type_ is ctypes.c_byte", "$f1._type_ is ctypes.c_ubyte"}
     for (t1, b1), (t2, b2) in zip(ce, cd_):
         if "ctypes.Array" not in t1:
             continue
-        ie, idd = [t for t, _ in chain_cases(b1)], [t for t, _ in chain_cases(b2)]
+        ie, idd = [t for t, _ in canon_cases(b1, me)], [t for t, _ in canon_cases(b2, md)]
         # decoder cases must be an ordered subsequence of the encoder's
         it = iter(ie)
         sub = all(any(x == y for y in it) for x in idd)
@@ -152,7 +186,7 @@ def run(prog: Program, chk: Check):
         S.decide(sub and set(extra) <= ALLOWED_ENCODER_ONLY and len(idd) >= 3, f"{MB}|array-cases", where(enc, le),
                  f"array cases agree (encoder-only: {extra})", f"array case analysis differs: encoder {ie} vs decoder {idd}")
         # encoder-only byte cases must produce a list / bytes of ints (slice copy or bytes())
-        for t, body in chain_cases(b1):
+        for t, body in canon_cases(b1, me):
             if t in ALLOWED_ENCODER_ONLY:
                 vals = [norm(n.value) for n in ast.walk(ast.Module(body=body, type_ignores=[])) if isinstance(n, ast.Assign)]
                 okp = bool(vals) and all(v.endswith("[:].copy()") or v.startswith("bytes(") for v in vals)
